@@ -33,7 +33,7 @@ def e0_of(ent, lv, mode):
     return q - el - (4 * EMASS if z < 0 else 0.0)
 
 
-def dline(jid, name, level, mode, win, seed, nev, plans=None, tplan=None, nme=None):
+def dline(jid, name, level, mode, win, seed, nev, plans=None, tplan=None, nme=None, bbplan=None):
     s = "D %s %s %d %d %s %s %d %d -1 0.5 %d %s" % (
         jid, name, level, mode, "x" if win is None else repr(win[0]), "x" if win is None else repr(win[1]), seed, nev,
         len(plans or []), " ".join(sch.fmt_plan(p) for p in (plans or [])))
@@ -41,6 +41,8 @@ def dline(jid, name, level, mode, win, seed, nev, plans=None, tplan=None, nme=No
         s += " T " + sch.fmt_plan(tplan)
     if nme:
         s += " N " + " ".join(repr(x) for x in nme)
+    if bbplan:
+        s += " B " + sch.fmt_plan(bbplan)
     return s
 
 
@@ -275,6 +277,84 @@ def run(tier, replay):
         key = "%s.%d:mode%d:%s:%s" % (m["iso"], m["level"], m["mode"], cls, site)
         ck.violation(key, "%s level %d mode %d [%s] %s: %s" % (m["iso"], m["level"], m["mode"], m["kind"], rj["id"], det),
                      {"job": m["job"], "result": rj})
+    # ---- 3b. the accept/reject boundary of the first-lepton rejection test (spmax * u <= spthe1[k]): for a grid of trial
+    #      energies from the first to the last table bin the port's own boundary r = spthe1[k]/spmax is read from its trace, then
+    #      the trial is replayed on port and reference with the ordinate deviate just below and just above r: both programs
+    #      take the same decision, i.e. the tabulated first-lepton spectra agree bin by bin (to 3e-6 for the modes without
+    #      quadrature, 3e-3 for the quadrature-based window modes - above the co-simulation's knife-edge margins)
+    UB = [1e-9, 1e-4, 1e-3, 3e-3, 0.01, 0.03, 0.1, 0.2, 0.35, 0.5, 0.65, 0.8, 0.9, 0.97, 0.99, 0.999, 1 - 1e-6]
+    pcfg = []
+    for (iso_, il_, modes_) in (("Mo100", 0, (1, 2, 3, 4, 5, 6, 13, 14, 15, 17, 18, 19)), ("Mo100", 1, (3, 7, 8, 16)), ("Cd106", 0, (1, 3, 4, 10)),
+                                 ("Nd150", 0, (1, 4, 13)), ("Ca48", 0, (1, 2, 4, 15)), ("Te130", 0, (1, 5, 19)), ("Ru96", 0, (10,)), ("Zn70", 0, (1, 4))):
+        for m_ in modes_:
+            pcfg.append((iso_, il_, m_))
+    if not thorough:
+        pcfg = rng.sample(pcfg, 14)
+    aj, am = [], {}
+    for ci, (iso_, il_, m_) in enumerate(pcfg):
+        for ui, u1 in enumerate(UB):
+            jid = "%s.%d.%d.bq%d_%d" % (iso_, il_, m_, ci, ui)
+            aj.append(dline(jid, iso_, il_, m_, None, 77 + ci, 1, bbplan=[u1, 0.999999, 0.5, 1e-12]))
+            am[jid] = (iso_, il_, m_, u1, ci)
+    atf = os.path.join(wd, "bb_a.trace")
+    na = 8
+    with cf.ThreadPoolExecutor(max_workers=na) as ex:
+        def ash(i):
+            return vlib.sh([exe, "--trace", atf + ".%d" % i], input="\n".join(aj[i::na]) + "\n", timeout=2400, env=vlib.harness_env("plain"))
+        for rc_, out_ in ex.map(ash, range(na)):
+            if rc_ != 0:
+                ck.violation("cosim-crash:bb-probe", "co-simulation harness died on the first-lepton boundary probes (rc=%s): %s" % (rc_, out_[-500:]), None)
+    bnd = {}
+    for i in range(na):
+        cur = None
+        if not os.path.exists(atf + ".%d" % i):
+            continue
+        for l in open(atf + ".%d" % i):
+            if '"Reset"' in l:
+                cur = json.loads(l)["id"].rsplit(":", 1)[0]
+            elif cur and '"bb_trial1"' in l and cur not in bnd:
+                a = [float(x) for x in json.loads(l)["a"]]
+                bnd[cur] = (a[0], int(a[1]), a[2], a[3])      # e1, k, spmax, spthe1[k]
+    bj, bm = [], {}
+    for jid, (iso_, il_, m_, u1, ci) in am.items():
+        if jid not in bnd:
+            continue
+        e1_, k_, spmax_, sp_ = bnd[jid]
+        if not (spmax_ > 0) or sp_ < 0:
+            continue
+        r_ = sp_ / spmax_
+        dl = 3e-3 if (m_ in (4, 5, 6, 8) or m_ >= 13) and m_ not in (17, 18) else 3e-6
+        for tag, u2, then in (("lo", r_ - dl, None), ("hi", r_ + dl, (0.5, 1e-12))):
+            if (tag == "lo" and not u2 > 1e-300) or (tag == "hi" and not (u2 < 1.0 and r_ > 0)):
+                continue
+            j2 = "%s.%s" % (jid, tag)
+            line = dline(j2, iso_, il_, m_, None, 77 + ci, 1, bbplan=[u1, u2] + (list(then) if then else []))
+            bj.append(line)
+            bm[j2] = (iso_, il_, m_, u1, e1_, k_, r_, tag, line)
+    bres2 = []
+    with cf.ThreadPoolExecutor(max_workers=na) as ex:
+        def bsh(i):
+            return vlib.sh([exe], input="\n".join(bj[i::na]) + "\n", timeout=2400, env=vlib.harness_env("plain"))
+        for rc_, out_ in ex.map(bsh, range(na)):
+            if rc_ != 0:
+                ck.violation("cosim-crash:bb-probe", "co-simulation harness died on the first-lepton boundary probes (rc=%s): %s" % (rc_, out_[-500:]), None)
+            bres2 += [json.loads(l) for l in out_.splitlines() if l.startswith("{")]
+    nbp = 0
+    for rj in bres2:
+        jid = rj["id"].rsplit(":", 1)[0]
+        if rj["id"].endswith(":init") or jid not in bm:
+            continue
+        nbp += 1
+        (iso_, il_, m_, u1, e1_, k_, r_, tag, line) = bm[jid]
+        if rj["cls"] in ("agree", "knife-edge-excluded", "ref-fermi-clamp-excluded"):
+            continue
+        ck.violation("%s.%d:mode%d:spectrum-boundary" % (iso_, il_, m_),
+                     "%s level %d mode %d: first-lepton trial at e1 = %.9g MeV (table bin %d): the port accepts up to spthe1/spmax = %.12g; with the "
+                     "ordinate deviate just %s it, port and reference take different decisions: %s %s" % (
+                         iso_, il_, m_, e1_, k_, r_, "below" if tag == "lo" else "above", rj["cls"], rj["detail"][:200]),
+                     {"job": line, "result": rj})
+    ck.set("first_lepton_spectra_probed", len(pcfg))
+    ck.set("first_lepton_boundary_probes", nbp)
     # ---- 4. TLC trace validation
     lines_total = 0
     with cf.ThreadPoolExecutor(max_workers=4) as ex:
